@@ -271,7 +271,7 @@ func (fx *FuncExec) addObl(kind, label, src string, reach, goal *Term) *Obligati
 			base = fmt.Sprintf("%s#%d", base, fx.ord[key])
 		}
 	}
-	o := &Obligation{Name: shortFuncName(fx.fn) + "/" + fx.curName() + base, Kind: kind, Func: shortFuncName(fx.fn), Label: label,
+	o := &Obligation{Name: fx.eng.topName(fx.fn) + "/" + fx.curName() + base, Kind: kind, Func: fx.eng.topName(fx.fn), Label: label,
 		Goal: g, NFacts: len(fx.facts), fx: fx, Src: src}
 	if fx.con != nil {
 		o.Props = fx.con.Props
